@@ -28,6 +28,8 @@ def main():
         if replay:
             return mod.replay(ctx, json.load(open(replay)))
         mod.run(ctx)
+        import common
+        common.replay_probes(ctx)
     except Exception as e:
         traceback.print_exc()
         ctx.obligation("check ran to completion", False, repr(e))
